@@ -243,6 +243,9 @@ public:
         m_indentHandler.setPreserve(true);
 
         m_writer.write(chars, length);
+
+        // This is character data, so what follows must not be indented...
+        m_indentHandler.setPrevText(true);
     }
 
 
